@@ -340,6 +340,8 @@ def check(rep: Report, tier: str, seed: int, prop: str = None):
                 rep.drift.append({"history": sl["id"], "matched": iv["matched"], "of": iv["n"], "D": sl["cfg"],
                                   "next": sl["log"][iv["matched"]] if iv["matched"] < len(sl["log"]) else "end-of-run",
                                   "outcome": r["outcome"]})
+        if prop == "C03":
+            real_backtests(rep, rng, wd, quick)
         rep.sample({"leg": "trace", "D": slimmed[0]["cfg"], "log": slimmed[0]["log"][:10], "clean": slimmed[0]["clean"]})
         rep.extra["inclusion_accepted"] = sum(1 for sl in slimmed if incl[sl["id"]]["matched"] >= incl[sl["id"]]["n"] + 1)
         rep.extra["inclusion_total"] = len(slimmed)
@@ -349,6 +351,79 @@ def check(rep: Report, tier: str, seed: int, prop: str = None):
         "jobs never push events and handlers schedule jobs at now() or later (the statements quantify over these; DESIGN.md §7 O1/O2)",
     ]
     rep.extra["rule"] = "a history is distinct by (configuration, sequence of executed segments)"
+
+
+def _run_real(job):
+    from . import c03_real
+    try:
+        return c03_real.run_scenario(job)
+    except Exception as e:  # noqa: BLE001
+        import traceback
+        return {"harness_error": f"{type(e).__name__}: {e}\n{traceback.format_exc()[-1200:]}"}
+
+
+def _run_real_subprocess(job):
+    """the same scenario in fresh interpreters with different hash seeds"""
+    import subprocess
+    import sys
+    runs = []
+    for hs in job["hashseeds"]:
+        code = ("import sys, json; sys.path.insert(0, %r); sys.path.insert(0, %r); from harness import c03_real; "
+                "print(json.dumps(c03_real.run_scenario(json.loads(sys.stdin.read()))))" % (os.path.dirname(os.path.dirname(os.path.abspath(__file__))), os.environ.get("VERIF_REPO", "/repo")))
+        p = subprocess.run([sys.executable, "-c", code], input=json.dumps(dict(job, maxcs=[1, 50])), capture_output=True, text=True,
+                           env=dict(os.environ, PYTHONHASHSEED=str(hs)))
+        if p.returncode != 0:
+            return {"harness_error": p.stderr[-1500:]}
+        runs += json.loads(p.stdout.strip().splitlines()[-1])["runs"]
+    return {"cfg": job, "runs": runs, "suspending": job["suspending"]}
+
+
+def real_backtests(rep: Report, rng: random.Random, wd: str, quick: bool):
+    """C03 on the real Exchange + dispatcher: the same scripted backtest for max_concurrent in {1, 2, 3, 50} (and, thorough tier,
+    in fresh interpreters with different hash seeds); judged by TLC with C03Trace.tla."""
+    from . import c03_real
+    jobs = []
+    for i in range(120 if quick else 1500):
+        S = c03_real.random_scenario(rng)
+        if rng.random() < 0.3:
+            S["suspending"] = True
+            for h in S["handlers"]:
+                h["yields"] = rng.choice([0, 1, 2])
+        jobs.append(S)
+    ctx = mp.get_context("fork")
+    with ctx.Pool(tlc.NCPU) as pool:
+        runs = pool.map(_run_real, jobs, chunksize=max(1, len(jobs) // (tlc.NCPU * 4)))
+        if not quick:
+            sub = [dict(c03_real.random_scenario(rng), hashseeds=[0, 1, rng.randint(2, 10**6)]) for _ in range(60)]
+            runs += pool.map(_run_real_subprocess, sub)
+    for r in runs:
+        if "harness_error" in r:
+            raise tlc.MachineryError("real backtest runner failed: " + r["harness_error"])
+    recs = [{"id": i, "runs": r["runs"], "suspending": r["suspending"]} for i, r in enumerate(runs, start=1)]
+    verd, results = tlc_batches("C03Trace", recs, wd, "AllConsumed", min(tlc.NCPU, max(1, len(recs) // 20)))
+    agg = results[0]
+    agg.distinct, agg.generated = sum(x.distinct for x in results), sum(x.generated for x in results)
+    rep.add_tlc("C03Trace/TRACE", agg, None, f"{len(recs)} real backtests x {len(runs[0]['runs'])} max_concurrent values")
+    for i, r in enumerate(runs, start=1):
+        rep.traces += len(r["runs"])
+        rep.steps += sum(len(x["orders"]) for x in r["runs"])
+        rep.distinct(hash(json.dumps(r["cfg"], sort_keys=True)))
+        v = verd.get(i)
+        if v is None:
+            raise tlc.MachineryError(f"no verdict for backtest {i}")
+        if v["failing"]:
+            clause = sorted(v["failing"])[0]
+            diff = None
+            if clause == "C03_Deterministic":
+                a = r["runs"][0]
+                b = next(x for x in r["runs"] if x["orders"] != a["orders"] or x["balances"] != a["balances"])
+                diff = {"maxc_a": a["maxc"], "maxc_b": b["maxc"],
+                        "orders_only_in_a": [o for o in a["orders"] if o not in b["orders"]][:4],
+                        "orders_only_in_b": [o for o in b["orders"] if o not in a["orders"]][:4]}
+            rep.violation(Violation("C03", clause, "trace", {"failing": sorted(v["failing"]), "scenario": r["cfg"], "difference": diff},
+                                    script={"kind": "real_backtest", "scenario": r["cfg"]}, discriminator=clause + "/real"))
+    rep.sample({"leg": "trace-real", "scenario": {k: runs[0]["cfg"][k] for k in ("pairs", "wiring", "usd", "base")},
+                "orders": runs[0]["runs"][0]["orders"][:4]})
 
 
 def small_exchange(rng):
